@@ -2,7 +2,7 @@
 import random
 from . import C03 as _C03
 ID = "C01"
-VARIANTS = ["san", "simd"]
+VARIANTS = ["san", "simd", "sanp"]      # sanp: san built with -DLJT_VERIF_POOLS (no pool slop: ASan sees intra-pool overruns)
 RULE = ("stage 1: well-formed streams of every process from the real encoders (ent: baseline, optimised, progressive with random scripts, "
         "arithmetic sequential/progressive, multi-scan, 8/12-bit, all sampling factors, restart markers; mkjpg: lossless at every "
         "precision 2..16 with predictors 1..7 and point transforms, lossy 8/12-bit with restart rows/blocks, gray/RGB/CMYK).  stage 2 "
@@ -15,7 +15,7 @@ RULE = ("stage 1: well-formed streams of every process from the real encoders (e
         "RGB565 and extended colourspaces, jpeg_crop_scanline + jpeg_skip_scanlines, buffered-image mode with intermediate output passes, "
         "saved markers, and jpeg_read_coefficients - with pixel, scan and memory limits configured.  Every call runs twice with "
         "different buffer prefill: equal outcome and equal produced output are required (uninitialised output shows as a difference); "
-        "ASan/UBSan reports, crashes and the per-call watchdog are failures")
+        "ASan/UBSan reports, crashes and the per-call watchdog are failures; hand-built frames/scans of 5..255 components (all SOF types)")
 TRUSTED = ["sanitizers and the prefill differencing are the observers of memory safety and initialisation on the real code; the theorems "
            "cover the model decoders only"]
 ASSUMPTIONS = ["pixel limit 2^20, scan limit 64 (500 in a fifth of the calls) and a 256 MB memory limit are configured, as the property presupposes"]
